@@ -157,7 +157,9 @@ class Equal(Logic):
         self.b = b
         self.r = r
 
-        w = a.getWidth()
+        # compare over the wider of the two operands, otherwise the upper bits
+        # of a wider b are ignored
+        w = max(a.getWidth(), b.getWidth())
         
         xor = self.wire('xor', w)
         
